@@ -17,6 +17,7 @@ SPECIFICATION Spec
 VIEW View
 INVARIANT TypeOK
 INVARIANT AnswersAgree
+INVARIANT SpellingLaw
 INVARIANT ContentRefines
 INVARIANT AbortInvisible
 INVARIANT SingleWriter
